@@ -145,6 +145,7 @@ def _feature_labels(case):
 
 
 def check(case) -> Verdict:
+    case = ref.normalise(case)
     rd = reading()
     text = c08_render.render(case)
     val = ref.validate(case, rd)
@@ -230,6 +231,8 @@ def check(case) -> Verdict:
         labels.append('verdict:rejected')
     elif soft:
         expect = {'VALIDATION_ERROR', 'PASS'}
+        if 'regex-invalid-sandbox-path' in soft:
+            expect.add('HARD_ERROR')  # cannot be known before the sandbox exists
         labels.append('verdict:either(value-validated-argument)')
         labels.extend('soft:' + s for s in soft)
     else:
@@ -262,6 +265,9 @@ def check(case) -> Verdict:
         return Verdict(True, nontrivial=nontrivial, labels=labels,
                        sample={'case_text': text, 'identifier': ident, 'first_error': val.error})
 
+    if ident == 'HARD_ERROR':
+        return Verdict(True, nontrivial=nontrivial, labels=labels + ['verdict:value-error-at-execution'],
+                       sample={'case_text': text, 'identifier': ident})
     # ---- accepted: everything ran, values as the reference says -------------------------------------
     if sds is None:
         return bad('accepted/no-sandbox-reported')
@@ -326,7 +332,7 @@ def check(case) -> Verdict:
 
 
 def render_case(case):
-    return {'case_text': c08_render.render(case)}
+    return {'case_text': c08_render.render(ref.normalise(case))}
 
 
 SUBS = [
